@@ -123,7 +123,7 @@ CLAIMED.update({
         ref='DESIGN.md section 7, C18'),
     'C20': dict(
         text='BYTE level: C20_stream_eq_bulk_bytes / C20_result_depends_on_bytes_only (byte chunks -> streaming UTF-8 decoder -> stream reader = bulk reader on the decoded text, for every chunking without empty chunks; chunk boundaries inside a multi-byte character are invisible), C20_valid_utf8_never_rejected, C20_decoder_accepts_exactly_utf8 (against core Lean String.utf8EncodeChar), C20_decoded_pieces_are_good (the decoded pieces satisfy GoodPieces). TEXT level: C20_lines_chunk_independent and C20_stream_eq_bulk: for EVERY partition of the decoded text the JS stream reader model processes the lines of the whole text and ends in the '
-             'same state as the bulk reader (records, warnings, error). The real rbql-js reader is tied by running it over ALL byte partitions of every short input, multi-byte samples and 64KiB-crossing files; the decoder model is tied to node's TextDecoder (as rbql_csv.js calls it) on every partition of every byte string of length <= 3 (4) over 27 boundary bytes, and the composed byte-chunk reader on damaged / truncated multi-byte CSV texts.',
+             'same state as the bulk reader (records, warnings, error). The real rbql-js reader is tied by running it over ALL byte partitions of every short input, multi-byte samples and 64KiB-crossing files; the decoder model is tied to the TextDecoder of node (as rbql_csv.js calls it) on every partition of every byte string of length <= 3 (4) over 27 boundary bytes, and the composed byte-chunk reader on damaged / truncated multi-byte CSV texts.',
         note='Trusted: Lean kernel + standard axioms. util.TextDecoder is no longer assumed correct but MODELLED (Model/Utf8.lean) and tied; assumption left: a Readable never emits a zero-length chunk (C20_empty_byte_chunk_counterexample shows why).',
         ref='DESIGN.md section 7, C20'),
 })
